@@ -67,31 +67,60 @@ theorem binCode_mul_nonneg (u : Bool) (x : ℚ) : 0 ≤ x * binCode u x := by
   unfold binCode
   cases u <;> simp only [Bool.false_eq_true, if_false, if_true] <;> split_ifs with h <;> norm_num <;> linarith
 
+theorem sgnPos_cases (x : ℚ) : sgnPos x = -1 ∨ sgnPos x = 1 := by
+  unfold sgnPos; split_ifs <;> simp
+
+theorem sgnPos_ne_zero (x : ℚ) : sgnPos x ≠ 0 := by
+  unfold sgnPos; split_ifs <;> norm_num
+
+/-- away from zero the sign with "zero counts as positive" IS the sign -/
+theorem sgnPos_eq_sgn {x : ℚ} (hx : x ≠ 0) : sgnPos x = sgn x := by
+  unfold sgnPos sgn
+  split_ifs with h1 h2
+  · rfl
+  · rfl
+  · exact absurd (le_antisymm (not_lt.mp h2) (not_lt.mp h1)) hx
+
+theorem sgnPos_eq_one_iff (x : ℚ) : sgnPos x = 1 ↔ 0 ≤ x := by
+  unfold sgnPos; split_ifs with h
+  · constructor
+    · intro h'; norm_num at h'
+    · intro h'; linarith
+  · exact ⟨fun _ => not_lt.mp h, fun _ => rfl⟩
+
 theorem terCodeFixed_cases (t x : ℚ) :
     terCodeFixed t x = -1 ∨ terCodeFixed t x = 0 ∨ terCodeFixed t x = 1 := by
   unfold terCodeFixed; split_ifs
-  · exact sgn_cases x
+  · rcases sgnPos_cases x with h | h
+    · exact Or.inl h
+    · exact Or.inr (Or.inr h)
   · simp
 
-theorem terCodeFixed_eq_zero_iff {t : ℚ} (ht : 0 < t) (x : ℚ) : terCodeFixed t x = 0 ↔ |x| < t := by
+/-- zero exactly below the threshold — EVERY threshold (0 and negative ones included) -/
+theorem terCodeFixed_eq_zero_iff (t x : ℚ) : terCodeFixed t x = 0 ↔ |x| < t := by
   unfold terCodeFixed
   rw [rabs_eq_abs]
   split_ifs with h
   · constructor
-    · intro hs
-      unfold sgn at hs
-      split_ifs at hs with h1 h2
-      · norm_num at hs
-      · norm_num at hs
-      · have : x = 0 := le_antisymm (not_lt.mp h2) (not_lt.mp h1)
-        rw [this] at h; simp at h; linarith
+    · intro hs; exact absurd hs (sgnPos_ne_zero x)
     · intro hlt; linarith
   · simp; exact not_le.mp h
 
-theorem terCodeFixed_sign (t x : ℚ) (h : terCodeFixed t x ≠ 0) : terCodeFixed t x = sgn x := by
+/-- a non-zero code is the sign of the input, zero counting as positive … -/
+theorem terCodeFixed_sign (t x : ℚ) (h : terCodeFixed t x ≠ 0) : terCodeFixed t x = sgnPos x := by
   unfold terCodeFixed at *; split_ifs at * with h1
   · rfl
   · exact absurd rfl h
+
+/-- … hence the sign proper whenever the input is not zero (always the case for a positive threshold) -/
+theorem terCodeFixed_sign_ne (t x : ℚ) (hx : x ≠ 0) (h : terCodeFixed t x ≠ 0) : terCodeFixed t x = sgn x := by
+  rw [terCodeFixed_sign t x h, sgnPos_eq_sgn hx]
+
+theorem terCodeFixed_ne_zero_of_pos {t x : ℚ} (ht : 0 < t) (h : terCodeFixed t x ≠ 0) : x ≠ 0 := by
+  intro hx
+  apply h
+  rw [terCodeFixed_eq_zero_iff, hx]
+  simpa using ht
 
 /-- `round-half-even(z) = 0` exactly on `[-1/2, 1/2]` -/
 theorem roundTie_even_eq_zero_iff (z : ℚ) : roundTie Tie.even z = 0 ↔ |z| ≤ 1 / 2 := by
@@ -146,6 +175,16 @@ theorem terCodeAuto_sign (c : Fl) (s x : ℚ) (h : terCodeAuto c s x ≠ 0) : te
   · exact absurd rfl h
   · rfl
   · exact absurd rfl h
+
+/-- a non-zero pass code is also the sign with zero counted as positive (a zero input has code 0) -/
+theorem terCodeAuto_sign_pos (c : Fl) (s x : ℚ) (h : terCodeAuto c s x ≠ 0) : terCodeAuto c s x = sgnPos x := by
+  have hs := terCodeAuto_sign c s x h
+  have hx : x ≠ 0 := by
+    intro hx
+    apply h
+    rw [hs, hx]
+    simp [sgn]
+  rw [hs, sgnPos_eq_sgn hx]
 
 /-- exact arithmetic: with a positive scale the code is zero exactly when `|x| ≤ scale / 2`
     (the threshold of the pass; the tie `|x| = scale/2` goes to zero because `tf.round` is half-to-even) -/
